@@ -367,6 +367,26 @@ class Body:
                     out.append((b, s))
         return out
 
+    def natural_loops(self):
+        """header -> set of blocks of the natural loop(s) with that header"""
+        out = {}
+        for (s_, h) in self.loops_back_edges():
+            body = out.setdefault(h, {h})
+            work = [s_]
+            body.add(s_)
+            while work:
+                x = work.pop()
+                if x == h:
+                    continue
+                for p_ in self.pred[x]:
+                    if p_ not in body:
+                        body.add(p_)
+                        work.append(p_)
+        return out
+
+    def loop_depth(self, bb):
+        return sum(1 for _h, blocks in self.natural_loops().items() if bb in blocks)
+
     # ---- definitions of locals
     def defs(self):
         """local -> list of ('stmt', bb, idx, stmt) / ('call', bb, term) / ('arg',) definitions of the whole local;
